@@ -501,6 +501,8 @@ class Check(PropertyCheck):
                f"/-- (c, lower(c)) for every code point whose str.lower() is a letter of \"basic\" -/\n"
                f"def lowerTable : List (Nat × Nat) := [{', '.join(f'({a}, {b})' for a, b in lowers)}]\n"
                f"def realm : String := {self._lean_str(proxyauth.REALM)}\n"
+               + f"/-- code points at which str.splitlines() breaks a line -/\n"
+               + f"def lineBreaks : List Nat := {[c for c in range(0x110000) if not (0xD800 <= c <= 0xDFFF) and len(('a' + chr(c) + 'b').splitlines()) == 2]}\n"
                + addon_order_lean("C20") +
                "end MitmVerif.Gen.C20\n")
         return {"MitmVerif/Gen/C20.lean": src}
